@@ -24,6 +24,7 @@ SHARDS = {"quick": 4, "thorough": 16}
 MIN_COUNTERS = {"parity_branches": 200, "toffoli_unitaries": 2, "state_preps": 20}
 WALL_BUDGET = {"quick": 200, "thorough": 2400}
 
+KF_ELECTRON = "nv-transpile:carbon-carbon-gate-needs-allocated-electron"
 PAULI = {"I": rq.I2, "X": rq.X, "Y": rq.Y, "Z": rq.Z}
 
 
@@ -76,6 +77,9 @@ def cases(ctx):
     for _ in range(ctx.n(30, 3000) * ctx.nshards):
         if mine():
             yield {"kind": "prep", "theta": rng.uniform(-7, 7), "phi": rng.uniform(-7, 7)}
+    for _ in range(ctx.n(40, 3000)):
+        yield {"kind": "session", "hardware": rng.choice(["generic", "generic", "nv"]), "slots": rng.choice([2, 2, 3]),
+               "steps": rng.choice([20, 40, 60]), "seed": rng.randrange(2**31)}
     nrand = 2 if ctx.quick else 12
     for n in (1, 2, 3):
         for letters in itertools.product("IXYZ", repeat=n):
@@ -90,9 +94,121 @@ def cases(ctx):
                                "vec": [[float(z.real), float(z.imag)] for z in vec]}
 
 
+def _session(ctx, case):
+    """Several host applications come and go on ONE long-lived controller and use the toolbox on computational-basis
+    registers (so every result is known classically): Toffoli = AND into the target, parity_meas over Z/I strings = parity of
+    the bits, set_qubit_state(theta = pi) = bit flip from |0>, t_inverse = no change of the bits.  After every flush the
+    application's qubits must be in exactly the expected basis state; applications must not see each other."""
+    import random
+    from netqasm.sdk.qubit import Qubit
+    from netqasm.sdk.toolbox import parity_meas, set_qubit_state, t_inverse, toffoli_gate
+    r = random.Random(case["seed"])
+    p = Pipe(hardware=case["hardware"], max_qubits=5, script=[], default_outcome=0)
+    p.conn.close()           # the first application comes and goes at once: the controller is now "used"
+    slots = {}               # slot -> {"conn", "qs": [Qubit], "bits": [int], "pending": [(handle, expected, what)]}
+    nslots = case["slots"]
+    log = []
+
+    def check_flush(k):
+        sl = slots[k]
+        sl["conn"].flush()
+        ctx.count("session_flushes")
+        for h, want, what in sl["pending"]:
+            got = int(h)
+            ctx.count("session_results_checked")
+            if got != want:
+                raise _SessionFail(f"{what} of application slot {k} (app id {sl['conn'].app_id}) returned {got}, expected {want}")
+        sl["pending"] = []
+        if sl["qs"]:
+            vec = p.state_in(sl["conn"], sl["qs"])
+            idx = int("".join(map(str, sl["bits"])), 2)
+            want = np.zeros(2 ** len(sl["qs"]), dtype=complex)
+            want[idx] = 1
+            if vec is None:
+                raise _SessionFail(f"after a flush the qubits of application slot {k} (app id {sl['conn'].app_id}) are entangled with qubits of another application")
+            if not rq.eq_up_to_phase(vec, want, 1e-7):
+                raise _SessionFail(f"after a flush the qubits of application slot {k} (app id {sl['conn'].app_id}) are not in |{''.join(map(str, sl['bits']))}> "
+                                   f"(overlap {rq.fidelity(vec, want):.4f})")
+    try:
+        for step in range(case["steps"]):
+            k = r.randrange(nslots)
+            sl = slots.get(k)
+            if sl is None:
+                slots[k] = {"conn": p.open(), "qs": [], "bits": [], "pending": []}
+                log.append(("open", k, slots[k]["conn"].app_id))
+                ctx.count("session_applications_opened")
+                continue
+            conn, qs, bits = sl["conn"], sl["qs"], sl["bits"]
+            if len(qs) < 3 and r.random() < 0.5:
+                op = r.choice(["alloc", "alloc", "prep"])
+            elif len(qs) == 3 and r.random() < 0.45:
+                op = "toffoli"
+            else:
+                op = r.choice(["parity", "parity", "tinv", "flush", "flush", "measure", "close"])
+            log.append((op, k))
+            if op == "alloc" and len(qs) < 3:
+                q = Qubit(conn)
+                b = r.randrange(2)
+                if b:
+                    q.X()
+                qs.append(q)
+                bits.append(b)
+            elif op == "toffoli" and len(qs) == 3:
+                c1, c2, t = r.sample(range(3), 3)
+                toffoli_gate(qs[c1], qs[c2], qs[t])
+                bits[t] ^= bits[c1] & bits[c2]
+                ctx.count("session_toffolis")
+            elif op == "parity" and qs:
+                letters = [r.choice("ZZI") for _ in qs]
+                if all(c == "I" for c in letters):
+                    letters[0] = "Z"
+                neg = r.random() < 0.3
+                m = parity_meas(qs, ("-" if neg else "") + "".join(letters))
+                want = (sum(b for b, c in zip(bits, letters) if c == "Z") + (1 if neg else 0)) % 2
+                sl["pending"].append((m, want, f"parity_meas({'-' if neg else ''}{''.join(letters)}) on |{''.join(map(str, bits))}>"))
+                ctx.count("session_parity_measurements")
+            elif op == "prep" and len(qs) < 3:
+                q = Qubit(conn)
+                b = r.randrange(2)
+                set_qubit_state(q, phi=0.0, theta=math.pi * b)
+                qs.append(q)
+                bits.append(b)
+            elif op == "tinv" and qs:
+                t_inverse(r.choice(qs))
+            elif op == "flush":
+                check_flush(k)
+            elif op == "measure" and qs:
+                for q, b in zip(qs, bits):
+                    sl["pending"].append((q.measure(), b, f"measurement of a qubit in |{b}>"))
+                sl["qs"], sl["bits"] = [], []
+                check_flush(k)
+            elif op == "close":
+                if r.random() < 0.5 and qs:
+                    check_flush(k)
+                conn.close()          # possibly while still holding qubits: the controller releases them
+                ctx.count("session_applications_closed_holding_qubits" if qs else "session_applications_closed")
+                del slots[k]
+        for k in list(slots):
+            check_flush(k)
+            slots[k]["conn"].close()
+    except _SessionFail as e:
+        ctx.fail(case, f"{case['hardware']} hardware, history {log[-12:]}: {e}")
+    except Exception as e:
+        key = None
+        if case["hardware"] == "nv" and "NotAllocatedError" in str(e) and "The qubit with address 0 was not allocated" in str(e):
+            key = KF_ELECTRON      # the NV expansion of a gate between memory qubits borrows the electron, which nobody holds
+        ctx.fail(case, f"{case['hardware']} hardware, history {log[-12:]}: {type(e).__name__}: {str(e)[:200]}", key=key)
+
+
+class _SessionFail(Exception):
+    pass
+
+
 def run_case(ctx, case):
     kind = case["kind"]
-    if kind == "toffoli":
+    if kind == "session":
+        _session(ctx, case)
+    elif kind == "toffoli":
         _toffoli(ctx, case)
     elif kind == "t_inverse":
         _tinv(ctx, case)
